@@ -2096,7 +2096,10 @@ func (self *Node) parseRaw(full bool) {
 		parser.noLazy = true
 		parser.loadOnce = true
 		n, e = parser.Parse()
-		self.assign(n)
+		/* on error the error node is published below, never the empty one */
+		if e == 0 {
+			self.assign(n)
+		}
 	} else {
 		*self, e = parser.Parse()
 	}
